@@ -45,7 +45,7 @@ func genExpScenario(rt *rapid.T) expScenario {
 	for i := 0; i < n; i++ {
 		at += rapid.IntRange(0, 6).Draw(rt, "gap") * 100
 		a := expAction{AtMs: at, Key: pick(rt, keys, "key"), C: rapid.IntRange(0, sc.Colls-1).Draw(rt, "c")}
-		a.K = pick(rt, []string{"Add", "ReAdd", "Set", "SetPreserve", "WriteCas", "Touch", "Touch", "GetAndTouchRaw", "GetAndTouchRaw", "WriteWithXattrs", "Update", "UpdateXattrs", "Delete", "Incr", "Reopen"}, "k")
+		a.K = pick(rt, []string{"Add", "ReAdd", "Set", "SetPreserve", "WriteCas", "Touch", "Touch", "GetAndTouchRaw", "GetAndTouchRaw", "WriteWithXattrs", "Update", "UpdateExp", "UpdateXattrs", "Delete", "Incr", "Reopen"}, "k")
 		a.TTL = pick(rt, []int{1, 1, 2, 2, 3, 4, 0, 60, 3600}, "ttl")
 		a.Abs = rapid.Bool().Draw(rt, "abs")
 		if a.K == "Reopen" && !sc.Disk {
@@ -200,6 +200,17 @@ func runExpScenario(sc expScenario, windowSec int) (res expResult) {
 			_, err = ds.Update(a.Key, 0, func(cur []byte) ([]byte, *uint32, bool, error) { return body, &e, false, nil })
 			if err == nil {
 				m.live, m.deadline, wrote = true, newDeadline(), true
+			}
+		case "UpdateExp":
+			// an Update whose callback changes nothing but the expiry
+			if !m.live {
+				err = fmt.Errorf("skip: not live")
+				break
+			}
+			e := exp
+			_, err = ds.Update(a.Key, 0, func(cur []byte) ([]byte, *uint32, bool, error) { return nil, &e, false, nil })
+			if err == nil {
+				m.deadline, wrote = newDeadline(), true
 			}
 		case "UpdateXattrs":
 			if !m.live {
